@@ -44,14 +44,16 @@ TRUSTED = ["is_single_crossing is MIRRORED step by step by sc_algo (Model/SCAlgo
            "proved exact for every size (sc_algo_sound, sc_algo_complete, sc_algo_no_error); the implementation is "
            "compared with it on every generated case: verdict (hard) and returned sequence (counted statistic; a "
            "different but valid witness is not an alarm)",
-           "is_single_crossing_conflict_sets is not mirrored literally (Python sets of (min, max) pairs); "
-           "sc_conflict_decide is its specification-level counterpart, proved equivalent to SC, and is compared on "
-           "every case",
+           "is_single_crossing_conflict_sets is mirrored literally by conflict_sets_algo (sets of (min, max) pairs as "
+           "lists used through membership), proved equal to sc_conflict_decide and hence exact "
+           "(conflict_sets_algo_eq / _correct); the implementation's verdict is compared on every case",
            "OrdinalInstance.flatten_strict (tuple of the single member of each class) is used as is; "
            "kendall_tau_distance = ktd (theorem ktd_kendall_tau, C20 model)"]
 ASSUMPTIONS = ["profiles are duplicate-free lists of strict complete orders over the alternatives of the instance "
                "(data type soc), at least one order; alternatives are non-negative integers; multiplicities arbitrary >= 1"]
 THEOREMS_FOR_OP = {
+    "c04.session": "sc_decide_correct / sc_conflict_decide_correct / sc_algo_correct on the profile at each question; "
+                   "the functions are pure (the model is a function of the profile)",
     "c04.decide": "sc_decide_correct / sc_conflict_decide_correct / sc_algo_correct (verdict), "
                   "sc_witness_check_correct (sequence)",
     "c04.core": "sc_core_refutes_sound (sc_sub: heredity), sc_conflict_decide_correct",
@@ -276,6 +278,7 @@ def generate(tier, seed):
             ch = star(rng, ch, m, 2)
         rng.shuffle(ch)
         out.append(mk(alts, ch, gen="history", hist=1))
+    out.extend(session_cases(rng, quick))
     # ---- exhaustive m = 3: all 2^6 - 1 non-empty sets of orders, in EVERY storage order (1956 lists);
     #      alternatives 0,1,2 (id 0 included) and 1,2,3
     for alts3 in ([0, 1, 2], [1, 2, 3]):
@@ -377,7 +380,7 @@ def generate(tier, seed):
     # ---- chains stored with the first stored order in the middle: every choice of the first two stored orders for
     #      chains of <= 7 orders (maximal chains of 4 alternatives have 7), sampled choices beyond; sub-chains give
     #      n < m and n >= m and tails of different lengths on the two sides of the first stored order
-    nchain = 12 if quick else 120
+    nchain = 9 if quick else 120
     for m in (3, 4, 5, 6, 7, 8):
         alts = list(range(1, m + 1)) if m % 2 == 0 else list(range(0, m))
         for ci in range(nchain if m <= 6 else max(2, nchain // 3)):
@@ -459,7 +462,7 @@ def generate(tier, seed):
             orders = orders[::-1]
         out.append(mk(alts, orders, mults(rng, len(orders), i % 2 == 0), gen=tag, lt=1))
     # ---- forks (near-miss negatives), m = 5..8, always with small non-contiguous ids
-    nfork = 2500 if quick else 25000
+    nfork = 1800 if quick else 25000
     made = 0
     while made < nfork:
         m = rng.randint(5, 8)
@@ -507,14 +510,14 @@ def generate(tier, seed):
         out.append(case("c04.core", [alts, orders, mults(rng, len(orders), True), S, flags],
                         gen="neg-core", large=1, n=len(orders), m=m))
     for k, cs_ in enumerate(out):
-        if cs_["tags"].get("gen") or k % 8 == 0:
+        if cs_["op"] != "c04.session" and (cs_["tags"].get("gen") or k % 8 == 0):
             cs_["tags"]["helper"] = 1
     # ---- alternative ids: every structured / random case is relabelled with probability ~0.5 to an id set that
     #      contains 0 (falsy in Python), and ~8 % of them to a set with huge ids (10**18, 2**64 + 1, ...)
     rl = random.Random(1000003 * seed + 404)
     for cs_ in out:
         g = cs_["tags"].get("gen")
-        if g and g != "corpus":
+        if g and g not in ("corpus", "session"):
             u = rl.random()
             if g == "fork":
                 relabel(rl, cs_, "small4m" if u < 0.6 else "smallmm")
@@ -529,13 +532,288 @@ def generate(tier, seed):
     # ---- cross-call history: ~15 % of the cases first call kendall_tau_distance(..., normalise=True) on the first two
     #      stored orders (both argument orders) and on a few other pairs, in the same worker call
     for cs_ in out:
-        if rl.random() < 0.15 and len(cs_["payload"][1]) >= 2 and len(cs_["payload"][0]) >= 2:
+        if cs_["op"] != "c04.session" and rl.random() < 0.15 and len(cs_["payload"][1]) >= 2 and len(cs_["payload"][0]) >= 2:
             cs_["tags"]["hist"] = 1
     return out
 
 
 # ------------------------------------------------------------------------------------------------ implementation
+# ------------------------------------------------------------------------------------------------ sessions
+# A session = a sequence of instances built and questioned inside ONE worker call (lessons of round 5: purity,
+# aliasing of results, object lifetime).  payload = [segments]; segment = [alts, orders, mult, actions, extras, flags]
+#   actions: 0 ask is_single_crossing    1 ask is_single_crossing_conflict_sets
+#            2 append_order(next extra)  (a new distinct order: the profile grows)
+#            3 poison, in place, the sequence returned by the last is_single_crossing call
+#            4 call flatten_strict / full_profile / vote_map / infer_type and poison what they return
+#            5 recompute_cardinality_param()
+#            6 append_order(first stored order)  (multiplicity + 1: same set of distinct orders)
+#   flags:   1 multiplicity dict and alternatives_name in another key order than orders / ascending ids
+#            2 multiplicities and ids are numpy.int64
+# Every answer is judged against the model of the profile as it should be at that point, and the semantic content of
+# the instance (common.snapshot) must be the same after every question / read-only call.
+A_SC, A_CS, A_APPEND, A_POISON, A_VIEWS, A_RECOMP, A_BUMP = 0, 1, 2, 3, 4, 5, 6
+
+
+def mk_session(segments, **tags):
+    tags.setdefault("gen", "session")
+    return case("c04.session", [segments], **tags)
+
+
+def _profiles_at_asks(seg):
+    """[(kind, profile)] for the ask actions of a segment, profile = distinct orders as they should be then"""
+    alts, orders, mult, actions, extras, flags = seg
+    prof = [list(o) for o in orders]
+    k = 0
+    out = []
+    for a in actions:
+        if a == A_APPEND:
+            if k < len(extras):
+                if list(extras[k]) not in prof:
+                    prof = prof + [list(extras[k])]
+                k += 1
+        elif a in (A_SC, A_CS):
+            out.append((a, [list(o) for o in prof]))
+    return out
+
+
+def _build(seg):
+    alts, orders, mult, actions, extras, flags = seg
+    if flags & 2:
+        import numpy as np
+        cv = lambda x: np.int64(x) if -2 ** 63 <= x < 2 ** 63 else x
+    else:
+        cv = lambda x: x
+    reg = list(alts)[::-1] if flags & 1 else list(alts)
+    inst = ordinal_instance([([[cv(a)] for a in o], cv(mu)) for o, mu in zip(orders, mult)], data_type="soc",
+                            alts=[cv(a) for a in reg])
+    if flags & 1:
+        items = list(inst.multiplicity.items())[::-1]
+        inst.multiplicity = dict(items)
+    return inst, cv
+
+
+def _ask_sc(SCm, inst):
+    res = SCm.is_single_crossing(inst)
+    if not (isinstance(res, tuple) and len(res) == 2):
+        raise RuntimeError("is_single_crossing returned %r" % (res,))
+    verdict, seq = res
+    if type(verdict).__name__ not in ("bool", "bool_"):
+        raise RuntimeError("is_single_crossing verdict is not a Boolean: %r" % (verdict,))
+    if verdict and seq is None:
+        raise RuntimeError("is_single_crossing answered True without a sequence")
+    return bool(verdict), seq
+
+
+def impl_session(c):
+    from preflibtools.properties.subdomains.ordinal import singlecrossing as SCm
+    from .common import snapshot, snap_diff
+    out = []
+    for seg in c["payload"][0]:
+        alts, orders, mult, actions, extras, flags = seg
+        inst, cv = _build(seg)
+        obs = []
+        last_seq = None
+        k = 0
+        for a in actions:
+            if a == A_SC:
+                before = snapshot(inst)
+                verdict, seq = _ask_sc(SCm, inst)
+                d = snap_diff(before, snapshot(inst))
+                last_seq = seq
+                obs.append([0, int(verdict), [[int(x) for x in o] for o in seq] if verdict else [], d or ""])
+            elif a == A_CS:
+                before = snapshot(inst)
+                cvd = SCm.is_single_crossing_conflict_sets(inst)
+                if type(cvd).__name__ not in ("bool", "bool_"):
+                    raise RuntimeError("is_single_crossing_conflict_sets returned %r" % (cvd,))
+                d = snap_diff(before, snapshot(inst))
+                obs.append([1, int(bool(cvd)), [], d or ""])
+            elif a == A_APPEND:
+                if k < len(extras):
+                    inst.append_order([cv(x) for x in extras[k]])
+                    k += 1
+            elif a == A_BUMP:
+                inst.append_order([cv(x) for x in orders[0]])
+            elif a == A_POISON:
+                if isinstance(last_seq, list):
+                    before = snapshot(inst)
+                    last_seq.reverse()
+                    last_seq.append(("junk",))
+                    if len(last_seq) > 1:
+                        del last_seq[0]
+                    d = snap_diff(before, snapshot(inst))
+                    if d:
+                        obs.append([9, 0, [], "poisoning the returned sequence changed the instance: " + d])
+            elif a == A_VIEWS:
+                before = snapshot(inst)
+                fs = inst.flatten_strict()
+                if isinstance(fs, list):
+                    fs.reverse()
+                    fs.append((("junk",), 1))
+                    del fs[0]
+                fp = inst.full_profile()
+                if isinstance(fp, list):
+                    fp.reverse()
+                    fp.append("junk")
+                vm = inst.vote_map()
+                if isinstance(vm, dict):
+                    vm.clear()
+                inst.infer_type()
+                d = snap_diff(before, snapshot(inst))
+                if d:
+                    obs.append([9, 0, [], "read-only views (or poisoning what they return) changed the instance: " + d])
+            elif a == A_RECOMP:
+                inst.recompute_cardinality_param()
+        out.append(obs)
+    return {"session": out}
+
+
+def _plan_session(c, r):
+    plan = []
+    for si, seg in enumerate(c["payload"][0]):
+        alts = seg[0]
+        asks = _profiles_at_asks(seg)
+        obs = []
+        if isinstance(r, dict) and "session" in r and si < len(r["session"]):
+            obs = [o for o in r["session"][si] if o[0] in (0, 1)]
+        for ai, (kind, prof) in enumerate(asks):
+            if len(prof) <= BRUTE_MAX_N:
+                plan.append(("s%da%d decide" % (si, ai), "c04.decide", [alts, prof]))
+            plan.append(("s%da%d cdecide" % (si, ai), "c04.cdecide", [alts, prof]))
+            if kind == A_SC:
+                plan.append(("s%da%d algo" % (si, ai), "c04.algo", [alts, prof]))
+                if ai < len(obs) and obs[ai][0] == 0 and obs[ai][1] == 1:
+                    plan.append(("s%da%d check" % (si, ai), "c04.check", [alts, prof, obs[ai][2]]))
+    return plan
+
+
+def judge_session(c, r, mres):
+    m = {k: v for (k, _, _), v in zip(_plan_session(c, r), mres)}
+    if not (isinstance(r, dict) and "session" in r):
+        return {"kind": "exception", "reason": "unexpected result %r" % (r,)}
+    for si, seg in enumerate(c["payload"][0]):
+        asks = _profiles_at_asks(seg)
+        allobs = r["session"][si]
+        for o in allobs:
+            if o[0] == 9:
+                return "segment %d: %s" % (si, o[3])
+        obs = [o for o in allobs if o[0] in (0, 1)]
+        if len(obs) != len(asks):
+            return {"kind": "broken-correspondence", "reason": "session adapter: %d answers for %d questions" % (len(obs), len(asks))}
+        for ai, ((kind, prof), o) in enumerate(zip(asks, obs)):
+            key = "s%da%d " % (si, ai)
+            expected = m.get(key + "decide", m[key + "cdecide"])
+            if m[key + "cdecide"] != expected:
+                return {"kind": "broken-correspondence", "reason": "the two proved references disagree"}
+            where = "segment %d, question %d (%s) on the profile %r" % (
+                si, ai, "is_single_crossing" if kind == A_SC else "is_single_crossing_conflict_sets", prof)
+            if kind == A_SC:
+                al = m[key + "algo"]
+                if al[0] != 0 or (1 if al[1] else 0) != expected:
+                    return {"kind": "broken-correspondence", "reason": "model: mirror sc_algo disagrees with the references"}
+            if o[1] != expected:
+                return "%s: answer %s, the reference says %s (earlier calls in the same process / on the same object " \
+                       "must not matter)" % (where, bool(o[1]), bool(expected))
+            if kind == A_SC and o[1] == 1 and m.get(key + "check") != 1:
+                return "%s: answers True but the returned sequence %r is rejected by the verified checker" % (where, o[2])
+            if o[3]:
+                return "%s: the question modified the instance it was asked about: %s" % (where, o[3])
+    return None
+
+
+def tie_profile(rng, alts, n):
+    """n >= m distinct orders whose is_single_crossing run ends on the tie-rejection path: v2 = v1 with its last
+    adjacent pair swapped, two other adjacent-swap neighbours of v1 (both get score -1), then a walk beyond v2"""
+    m = len(alts)
+    v1 = rand_perm(rng, alts)
+    v2 = list(v1)
+    v2[m - 2], v2[m - 1] = v2[m - 1], v2[m - 2]
+    pos = rng.sample(range(m - 2), 2)
+    nb = []
+    for i in pos:
+        x = list(v1)
+        x[i], x[i + 1] = x[i + 1], x[i]
+        nb.append(x)
+    out = [v1, v2] + nb
+    cur = list(v2)
+    used = {frozenset((v1[m - 2], v1[m - 1]))}
+    while len(out) < n:
+        cands = [i for i in range(m - 1) if frozenset((cur[i], cur[i + 1])) not in used]
+        if not cands:
+            break
+        i = rng.choice(cands)
+        used.add(frozenset((cur[i], cur[i + 1])))
+        cur[i], cur[i + 1] = cur[i + 1], cur[i]
+        if cur not in out:
+            out.append(list(cur))
+    tail = out[2:]
+    rng.shuffle(tail)
+    return out[:2] + tail
+
+
+def session_cases(rng, quick):
+    out = []
+    one_object = [[1, 0, 1, 0], [0, 1, 0, 1], [1, 1, 0, 0], [0, 0, 1, 1], [0, 3, 0, 1, 3, 0], [1, 4, 0, 5, 1, 0],
+                  [1, 2, 0, 1, 0], [0, 2, 1, 0, 1], [1, 0, 2, 1, 0], [1, 6, 1, 0, 5, 0], [0, 4, 3, 1, 2, 0, 1],
+                  [1, 1, 2, 2, 0, 1]]
+    nobj = 700 if quick else 7000
+    for i in range(nobj):
+        m = rng.randint(3, 7)
+        alts = list(range(0, m)) if i % 2 else list(range(1, m + 1))
+        kind = i % 5
+        full = max_chain(rng, alts)
+        if kind == 0:
+            orders = [rand_perm(rng, alts)]                       # a one-order profile: True, and True again
+        elif kind in (1, 2):
+            orders = sub_chain(rng, full, rng.randint(2, min(len(full), m + 2)))
+        elif kind == 3:
+            orders = star(rng, sub_chain(rng, full, rng.randint(2, 5)), m, 2)
+        else:
+            orders = fork(rng, alts, rng.randint(1, 3)) or sub_chain(rng, full, 3)
+        orders = [list(o) for o in orders]
+        if i % 3:
+            rng.shuffle(orders)
+        # extras: one order continuing the chain (stays single-crossing when orders is a prefix-like sub-chain) and one
+        # neighbour of a member (usually destroys it)
+        extras = []
+        for cand in (full[-1], star(rng, [list(o) for o in orders], m, 1)[-1], rand_perm(rng, alts)):
+            if list(cand) not in orders and list(cand) not in extras:
+                extras.append(list(cand))
+        acts = one_object[i % len(one_object)]
+        flags = (1 if i % 4 == 1 else 0) | (2 if i % 7 == 3 else 0)
+        out.append(mk_session([[alts, orders, mults(rng, len(orders), i % 2 == 0), acts, extras, flags]],
+                              skind="one-object"))
+    # sequences of different instances in one call: first run ends on a rare path, then the call under test
+    nseq = 500 if quick else 5000
+    for i in range(nseq):
+        m = rng.randint(4, 7)
+        alts = list(range(0, m)) if i % 2 else list(range(1, m + 1))
+        kind = i % 4
+        if kind in (0, 1):
+            a_orders = tie_profile(rng, alts, rng.randint(m, m + 3))     # n >= m, ends on the tie rejection
+            tagk = "tie-then-sc"
+        elif kind == 2:
+            a_orders = [rand_perm(rng, alts) for _ in range(m + 1)]      # usually rejected by the distance tests
+            a_orders = [o for j, o in enumerate(a_orders) if o not in a_orders[:j]]
+            tagk = "random-then-sc"
+        else:
+            a_orders = fork(rng, alts, rng.randint(2, 4)) or tie_profile(rng, alts, m)
+            tagk = "fork-then-sc"
+        full = max_chain(rng, alts)
+        b_orders = sub_chain(rng, full, rng.randint(m, min(len(full), m + 4)))
+        rng.shuffle(b_orders)
+        segs = [[alts, a_orders, [1] * len(a_orders), [0, 1] if i % 3 else [0], [], 0],
+                [alts, b_orders, mults(rng, len(b_orders), True), [0, 1, 0], [], 1 if i % 5 == 0 else 0]]
+        if i % 6 == 0:
+            c_orders = sub_chain(rng, full, rng.randint(2, m - 1))      # n < m afterwards
+            segs.append([alts, c_orders, [1] * len(c_orders), [1, 0], [], 0])
+        out.append(mk_session(segs, skind=tagk))
+    return out
+
+
 def impl(c):
+    if c["op"] == "c04.session":
+        return impl_session(c)
     from preflibtools.properties.subdomains.ordinal import singlecrossing as SCm
     pl = c["payload"]
     alts, orders, mult = pl[0], pl[1], pl[2]
@@ -606,12 +884,15 @@ def _plan(c, r):
     plan.append(("algo", "c04.algo", [alts, orders]))
     # mirror of the verification pass vs the sequence checker on the stored order (theorem ordered_check_correct)
     if c["tags"].get("helper"):
+        plan.append(("csalgo", "c04.csalgo", [orders]))      # literal mirror of is_single_crossing_conflict_sets
         plan.append(("ordered", "c04.ordered", [orders]))
         plan.append(("seqcheck", "c04.seqcheck", [alts, orders]))
     return plan
 
 
 def oracle_requests(c, r):
+    if c["op"] == "c04.session":
+        return [(op, payload) for _, op, payload in _plan_session(c, r)]
     return [(op, payload) for _, op, payload in _plan(c, r)]
 
 
@@ -620,6 +901,8 @@ def _named(c, r, mres):
 
 
 def judge(c, r, mres):
+    if c["op"] == "c04.session":
+        return judge_session(c, r, mres)
     m = _named(c, r, mres)
     cref = m["cdecide"]
     if c["op"] == "c04.core":
@@ -632,6 +915,9 @@ def judge(c, r, mres):
     if cref != expected:
         return {"kind": "broken-correspondence",
                 "reason": "the two proved references disagree (decide/core says SC=%d, cdecide %d)" % (expected, cref)}
+    if "csalgo" in m and m["csalgo"] != cref:
+        return {"kind": "broken-correspondence",
+                "reason": "model: conflict_sets_algo and sc_conflict_decide disagree (conflict_sets_algo_eq)"}
     if "ordered" in m and m["ordered"] != m["seqcheck"]:
         return {"kind": "broken-correspondence",
                 "reason": "model: ordered_check and sc_seq_check disagree on the stored order (ordered_check_correct)"}
@@ -659,6 +945,8 @@ def judge(c, r, mres):
 
 
 def nontrivial(c, r, m):
+    if c["op"] == "c04.session":
+        return any(len(seg[1]) >= 2 for seg in c["payload"][0])
     return len(c["payload"][1]) >= 3
 
 
@@ -667,6 +955,23 @@ def _bucket(n):
 
 
 def stats(c, r, m):
+    if c["op"] == "c04.session":
+        lab = ["session " + str(c["tags"].get("skind")), "session segments=%d" % len(c["payload"][0])]
+        if isinstance(r, dict) and "session" in r:
+            for seg, obs in zip(c["payload"][0], r["session"]):
+                for o in obs:
+                    if o[0] in (0, 1):
+                        lab.append("session answer %s %s" % ("is_single_crossing" if o[0] == 0 else "conflict_sets",
+                                                              "SC" if o[1] else "notSC"))
+                if seg[5] & 1:
+                    lab.append("session: multiplicity / names key order decoupled")
+                if seg[5] & 2:
+                    lab.append("session: numpy.int64 ids and multiplicities")
+                if A_APPEND in seg[3]:
+                    lab.append("session: append between questions")
+                if A_POISON in seg[3] or A_VIEWS in seg[3]:
+                    lab.append("session: returned objects poisoned")
+        return lab
     pl = c["payload"]
     n, mm = len(pl[1]), len(pl[0])
     v = "SC" if (isinstance(r, list) and r[0] == 1) else "notSC"
@@ -706,6 +1011,10 @@ def stats(c, r, m):
 
 
 def describe(c):
+    if c["op"] == "c04.session":
+        return {"segments (alts, orders, multiplicities, actions, appended orders, flags)": c["payload"][0],
+                "actions": "0 is_single_crossing, 1 conflict_sets, 2 append_order(next extra), 3 poison returned "
+                           "sequence, 4 views + poison, 5 recompute_cardinality_param, 6 append first order again"}
     pl = c["payload"]
     d = {"alternatives": pl[0], "orders (storage order)": pl[1], "multiplicities": pl[2]}
     if c["op"] == "c04.core":
@@ -715,6 +1024,16 @@ def describe(c):
 
 
 def shrink(c):
+    if c["op"] == "c04.session":
+        segs = c["payload"][0]
+        for i in range(len(segs) - 1):
+            yield dict(c, payload=[segs[:i] + segs[i + 1:]])
+        for i, seg in enumerate(segs):
+            acts = seg[3]
+            for j in range(len(acts)):
+                if acts[j] != A_APPEND:
+                    yield dict(c, payload=[segs[:i] + [seg[:3] + [acts[:j] + acts[j + 1:]] + seg[4:]] + segs[i + 1:]])
+        return
     pl = c["payload"]
     alts, orders, mult = pl[0], pl[1], pl[2]
     if c["op"] == "c04.core":
